@@ -540,6 +540,7 @@ func fixedScenarios() []string {
 		"D 0 1 f0 b0 ; C 0 0 1 f0 I1 ; D 0 1 f0 b2 ; D 1 1 f0 s0 ; C 1 1 1 f0 @0 ; C 2 0 1 f0 S1 ; R 2 @0 ; W h 1 f0 @0",
 		"J 0 0 0 1 f0 S1 ; D 0 2 f0 b0 f1 b2 ; W h 0 f1 I5 ; W h 0 f1 S1",
 		"D 0 1 f0 b0 ; C 0 0 1 f0 I1 ; C 1 0 1 f0 I2 ; R 1 @0 ; W h 1 f0 I3 ; W h 0 f0 I4",
+		"D 0 1 f0 L b0 ; C 0 0 0 ; W h 0 f0 A1 H ; W d 0 f0 A2 H I1 ; C 1 0 1 f0 A1 A1 H",
 		// failed declaration leaves the place-holder
 		"D 0 1 f0 s1 ; C 0 0 0 ; C 1 0 1 f0 I1 ; W h 0 f0 I1",
 	)
